@@ -139,7 +139,85 @@ def _cf_read_loop_cmp():
     raise ValueError("read: loop test operands")
 
 
+# ---- C20 ------------------------------------------------------------------------------------
+
+
+def _raises(node: ast.AST, excname: str) -> bool:
+    for n in ast.walk(node):
+        if isinstance(n, ast.Raise) and n.exc is not None:
+            e = n.exc.func if isinstance(n.exc, ast.Call) else n.exc
+            if getattr(e, "id", None) == excname:
+                return True
+    return False
+
+
+@fact("xspec_env_dup_checked", "bool", "false")
+def _xspec_env_dup_checked():
+    """XSpec.__init__: is there a ValueError-raising test that looks at self.env for env: keys?"""
+    f = find("xspec.py", "XSpec.__init__")
+    loops = [n for n in f.body if isinstance(n, ast.For)]
+    if len(loops) != 1 or unparse(loops[0].iter) != "string.split('//')":
+        raise ValueError("XSpec.__init__: loop over string.split('//') not found")
+    dup_tests = [n.test for n in ast.walk(loops[0]) if isinstance(n, ast.If) and _raises(ast.Module(body=n.body, type_ignores=[]), "ValueError")]
+    if not any("key in self.__dict__" in unparse(t) for t in dup_tests):
+        raise ValueError("XSpec.__init__: `key in self.__dict__` duplicate test not found")
+    return "true" if any("self.env" in unparse(t) for t in dup_tests) else "false"
+
+
+def _with_blocks(f: ast.AST, lockname: str):
+    return [n for n in ast.walk(f) if isinstance(n, ast.With) and any(lockname in unparse(i.context_expr) for i in n.items)]
+
+
+def _inside(block: ast.AST, pred) -> bool:
+    return any(pred(n) for n in ast.walk(block))
+
+
+@fact("grp_alloc_read_locked", "bool", "false")
+def _grp_alloc_read_locked():
+    """Group.allocate_id: every read and the increment of _autoidcounter sit inside `with self._autoidlock`"""
+    f = find("multi.py", "Group.allocate_id")
+    uses = [n for n in ast.walk(f) if isinstance(n, ast.Attribute) and n.attr == "_autoidcounter"]
+    if len(uses) < 2:
+        raise ValueError("allocate_id: counter read/increment not found")
+    locked = set()
+    for w in _with_blocks(f, "_autoidlock"):
+        for n in ast.walk(w):
+            if isinstance(n, ast.Attribute) and n.attr == "_autoidcounter":
+                locked.add(id(n))
+    return "true" if all(id(u) in locked for u in uses) else "false"
+
+
+@fact("grp_explicit_checked", "bool", "false")
+def _grp_explicit_checked():
+    """Group.allocate_id rejects (ValueError) an explicit spec.id that is already a member"""
+    f = find("multi.py", "Group.allocate_id")
+    for n in ast.walk(f):
+        if isinstance(n, ast.If) and "spec.id in self" in unparse(n.test) and "spec.id is None" not in unparse(n.test) and _raises(ast.Module(body=n.body, type_ignores=[]), "ValueError"):
+            return "true"
+    return "false"
+
+
+@fact("grp_register_atomic", "bool", "false")
+def _grp_register_atomic():
+    """Group._register: the membership test and the append are inside one `with <lock>` block"""
+    f = find("multi.py", "Group._register")
+    appends = [n for n in ast.walk(f) if isinstance(n, ast.Call) and unparse(n.func) == "self._gateways.append"]
+    if len(appends) != 1:
+        raise ValueError("_register: append not found")
+    for w in [n for n in ast.walk(f) if isinstance(n, ast.With)]:
+        src = unparse(w)
+        if "lock" in unparse(w.items[0].context_expr).lower() and "self._gateways.append" in src and "not in self" in src:
+            return "true"
+    return "false"
+
+
 DIGESTS = [
+    ("xspec.py", "XSpec.__init__"),
+    ("multi.py", "Group.allocate_id"),
+    ("multi.py", "Group._register"),
+    ("multi.py", "Group._unregister"),
+    ("multi.py", "Group.__getitem__"),
+    ("multi.py", "Group.__contains__"),
     ("gateway_base.py", "ChannelFileRead.read"),
     ("gateway_base.py", "ChannelFileRead.readline"),
     ("gateway_base.py", "ChannelFileWrite"),
@@ -152,7 +230,7 @@ def main() -> int:
         "(* GENERATED by tools/gen_facts.py from %s on every run -- do not edit *)" % SRC,
         "From Coq Require Import ZArith List String.",
         "Import ListNotations.",
-        "Require Import EV.model.Cfg.",
+        "Require Import EV.model.Cfg EV.model.GroupIds.",
         "Open Scope string_scope.",
         "",
     ]
@@ -165,6 +243,7 @@ def main() -> int:
             js["errors"][name] = f"{type(e).__name__}: {e}"
         js["facts"][name] = term
         lines.append(f"Definition {name} : {typ} := {term}.")
+    lines.append("Definition group_cfg : GroupIds.gcfg := {| GroupIds.alloc_read_locked := grp_alloc_read_locked; GroupIds.explicit_checked := grp_explicit_checked; GroupIds.register_atomic := grp_register_atomic |}.")
     for fn, q in DIGESTS:
         js["digests"][f"{fn}:{q}"] = digest(fn, q)
     text = "\n".join(lines) + "\n"
